@@ -48,6 +48,8 @@ type Opts struct {
 	// 1..YieldLatMaxMs milliseconds with this probability ("any distribution of stage latencies").
 	YieldLatPermille int
 	YieldLatMaxMs    int
+	// RecordTerm: keep every screen line the program writes (Sim.Term), see TermLine
+	RecordTerm bool
 	// Knobs overrides integer constants of rare that the instrumenter wrapped in KnobInt
 	// (key: "<package path>.<constant name>").
 	Knobs map[string]int
@@ -57,6 +59,7 @@ type Opts struct {
 type Sim struct {
 	Tape *Tape
 	Opts Opts
+	Term []TermEvent
 
 	mu       sync.Mutex
 	panicMu  sync.Mutex
@@ -134,6 +137,28 @@ func Me() int {
 		return g.ID
 	}
 	return -1
+}
+
+// TermEvent is one line written to rare's multi-line terminal: Step is the scheduler step during which it was
+// written and Held says whether the writing goroutine held a lock - a periodic render runs under the output mutex,
+// where yields are suppressed, so all lines of one such render share one Step.
+type TermEvent struct {
+	Step int
+	Held bool
+	Line int
+	Text string
+}
+
+// TermLine is called first thing by every WriteForLine of rare/pkg/multiterm in the instrumented tree.
+func TermLine(line int, text string) {
+	s := active.Load()
+	if s == nil || s.Opts.Mode == ModeFree || !s.Opts.RecordTerm {
+		return
+	}
+	g := s.me()
+	s.mu.Lock()
+	s.Term = append(s.Term, TermEvent{Step: s.Steps, Held: g != nil && g.held > 0, Line: line, Text: text})
+	s.mu.Unlock()
 }
 
 // Probe counts a "this rare condition was hit" event.
